@@ -147,7 +147,7 @@ r('rf-resolve-helper',
 # ---- refactors written by independent sub-agents (three per property area; they saw the property text and a scratch worktree only).
 # Each was required to be behaviour-preserving, to build in all four feature sets and to leave the suite unchanged; every check runs on each.
 for _area in ('C01', 'C02', 'C03', 'C04', 'C05', 'C06', 'C07', 'C08', 'C10', 'C11', 'C12', 'C14', 'C15', 'C16', 'C17', 'C18', 'C19', 'C20'):
-    for _i in (1, 2, 3, 4, 5, 6, 7, 8, 9, 10, 11, 12):          # r1-r3: first round, r4-r6: second, r7-r9: third (each told what the earlier ones had done)
+    for _i in (1, 2, 3, 4, 5, 6, 7, 8, 9, 10, 11, 12, 13, 14, 15):          # r1-r3: first round, r4-r6: second, r7-r9: third (each told what the earlier ones had done)
         import os as _os
         if _os.path.exists(_os.path.join(_os.path.dirname(_os.path.dirname(_os.path.abspath(__file__))), 'selftest/refactor_diffs/%s-r%d.diff' % (_area, _i))):
             r('agent-%s-r%d' % (_area, _i), diff='selftest/refactor_diffs/%s-r%d.diff' % (_area, _i))
@@ -179,5 +179,31 @@ r('rf-clamp-combo-helper',
 r('rf-inspect-literal-clamped',
   ('src/any/difficulty/inspect.rs', "            clock_rate: clock_rate.map(f64_to_non_zero_u64),", "            clock_rate: clock_rate.map(|rate| f64_to_non_zero_u64(rate.clamp(0.01, 100.0))),"),
   diff='selftest/seed_diffs/C11-3.diff', props=['C11', 'C18', 'C08', 'C14'])
+
+# the compact retain maintains its count (after it every entry is a value): len() may then be asked after the retain (C10-R6 discharges itself)
+r('rf-retain-maintains-count',
+  ('src/util/strains_vec.rs', "            self.inner.retain(|e| likely(e.is_value()));\n", "            self.inner.retain(|e| likely(e.is_value()));\n            self.len = self.inner.len();\n"),
+  ('src/any/difficulty/skills.rs', "    peaks.retain_non_zero_and_sort();\n", "    peaks.retain_non_zero_and_sort();\n    debug_assert!(peaks.len() < usize::MAX);\n"),
+  props=['C10', 'C11', 'C16'])
+
+# the ManiaDifficultySetup refactor of seed C18-4 with the builder calls in the right order (.difficulty first, then the pinned key count)
+r('rf-mania-setup-funnel-order',
+  ('src/mania/difficulty/mod.rs', "            .cs(map.cs, true)\n            .difficulty(difficulty)\n", "            .difficulty(difficulty)\n            .cs(map.cs, true)\n"),
+  diff='selftest/seed_diffs/C18-4.diff', props=['C18', 'C08', 'C17', 'C07', 'C02', 'C16'])
+
+# next() feeds the osu skills through the container's process(), like the bulk step of nth() does
+r('rf-next-uses-container-process',
+  ('src/osu/difficulty/gradual.rs', "            self.skills.aim.process(curr, &self.diff_objects);\n            self.skills.aim_no_sliders.process(curr, &self.diff_objects);\n            self.skills.speed.process(curr, &self.diff_objects);\n            self.skills.flashlight.process(curr, &self.diff_objects);\n",
+   "            self.skills.process(curr, &self.diff_objects);\n"),
+  props=['C15', 'C16', 'C02', 'C03'])
+
+# the merged bookkeeping of seed C14-4, correct: the match yields (duration, is_long) by KIND and one helper updates the counters
+r('rf-mania-record-by-kind',
+  ('src/mania/object.rs', "                params.max_combo += (duration / 100.0) as u32;\n                params.n_hold_notes += 1;\n\n                Self {\n                    start_time: h.start_time,\n                    end_time: h.start_time + duration,\n                    column,\n                }\n            }\n            HitObjectKind::Spinner",
+   "                params.record(duration, true);\n\n                Self {\n                    start_time: h.start_time,\n                    end_time: h.start_time + duration,\n                    column,\n                }\n            }\n            HitObjectKind::Spinner"),
+  ('src/mania/object.rs', "            | HitObjectKind::Hold(HoldNote { duration }) => {\n                params.max_combo += (duration / 100.0) as u32;\n                params.n_hold_notes += 1;\n",
+   "            | HitObjectKind::Hold(HoldNote { duration }) => {\n                let is_long = true;\n                params.record(duration, is_long);\n"),
+  ('src/mania/object.rs', "impl<'a> ObjectParams<'a> {", "impl<'a> ObjectParams<'a> {\n    fn record(&mut self, duration: f64, is_long: bool) {\n        if is_long {\n            self.max_combo += (duration / 100.0) as u32;\n            self.n_hold_notes += 1;\n        }\n    }\n"),
+  props=['C14', 'C02', 'C05'])
 
 REFACTORS = R
